@@ -121,7 +121,10 @@ class Sandbox:
                 if (self.nfile + j) % 3 == 0:
                     lines.append("" if j % 2 else "   ")
                 lines.append(n)
-            open(nf, "w").write("".join(x + "\n" for x in lines))
+            text = "".join(x + "\n" for x in lines)
+            if self.nfile % 2 == 1:
+                text = text[:-1]            # the last line of every second names file has no line end
+            open(nf, "w").write(text)
             args += ["-f", nf]
         else:
             args += names
